@@ -137,23 +137,33 @@ func Explore(cfg Config, body func(ex *Exec) string) Result {
 		}
 		return res.Cap != ""
 	}
+	// work is split at the level of the second deviation (first, if the bound is 1): executions
+	// with fewer deviations are run by every shard (they are needed to reach the subtrees) but
+	// counted by shard 0 only
+	shardLevel := 2
+	if cfg.Bound < 2 {
+		shardLevel = 1
+	}
 	var rec func(prefix []int)
 	rec = func(prefix []int) {
 		ex, out := runOne(cfg, prefix, cache, false, body)
-		res.Executions++
-		if ex.Pruned {
-			res.Pruned++
+		counted := cfg.NShards <= 1 || cfg.Shard == 0 || ex.used >= shardLevel
+		if counted {
+			res.Executions++
+			if ex.Pruned {
+				res.Pruned++
+			}
+			res.Steps += ex.Steps
+			res.Outcomes[out]++
+			if !finals[ex.fp] {
+				finals[ex.fp] = true
+				if ex.used > 0 {
+					res.Deviated++
+				}
+			}
 		}
-		res.Steps += ex.Steps
 		if ex.Steps > res.MaxSteps {
 			res.MaxSteps = ex.Steps
-		}
-		res.Outcomes[out]++
-		if !finals[ex.fp] {
-			finals[ex.fp] = true
-			if ex.used > 0 {
-				res.Deviated++
-			}
 		}
 		choices := choicesOf(ex)
 		for _, f := range ex.failures {
@@ -185,7 +195,7 @@ func Explore(cfg Config, body func(ex *Exec) string) Result {
 					if cost > cfg.Bound {
 						continue
 					}
-					if len(prefix) == 0 && cfg.NShards > 1 {
+					if cfg.NShards > 1 && cost == shardLevel && pre < shardLevel {
 						topK++
 						if topK%cfg.NShards != cfg.Shard {
 							continue
@@ -203,15 +213,7 @@ func Explore(cfg Config, body func(ex *Exec) string) Result {
 			}
 		}
 	}
-	if cfg.NShards > 1 && cfg.Shard != 0 {
-		// the root execution is counted by shard 0 only; other shards still need its steps
-		save := res
-		rec(nil)
-		res.Executions--
-		_ = save
-	} else {
-		rec(nil)
-	}
+	rec(nil)
 	res.Traces = len(finals)
 	res.Leaked = Leaked
 	// confirm every failure by replaying its schedule
